@@ -1,5 +1,6 @@
 import SafeNet.Base.Sha256
 import SafeNet.Proofs.StoreCap
+import SafeNet.Proofs.StoreCapCrash
 import SafeNet.Proofs.StoreFlush
 /-!
 # C10 — store capacity, distance-based eviction and quoting metrics are exact
@@ -282,7 +283,7 @@ theorem payments_runFrom (cfg : Cfg) (dist : Nat → Nat) (ops : List Op) (s : S
     | payment =>
       simp only [runFrom, countPayments]
       rw [ih _ (by simpa [noCrash] using h)]
-      simp only [step, payment]; omega
+      simp only [step, payment_eq, paymentSync]; omega
     | put k v rt =>
       simp only [runFrom, countPayments]
       rw [ih _ (by simpa [noCrash] using h)]
@@ -343,36 +344,81 @@ theorem payments_exact (cfg : Cfg) (dist : Nat → Nat) (ops : List Op) (h : noC
   rw [payments_runFrom cfg dist ops (init cfg dist) h]
   simp [init, restart]
 
-/-- **Payments survive a restart** when the last flush has completed: the reopened store reports what
-the metrics file holds (out-of-order completion of two flush tasks can persist an older count — the
-model keeps that behaviour; the harness checks the file content against the last completed flush). -/
+/-- what rs2lean read from `flush_historic_quoting_metrics`: the count is written to the metrics file in place, inside
+`payment_received` / `with_config` — no spawned task carries a captured count (the model's `payment` and `restart`
+follow this flag) -/
+theorem flush_is_synchronous : Gen.Store.flushSynchronous = true := by decide
+
+/-- **Payments survive a restart** when the metrics file holds the count: the reopened store reports what the file
+holds (and it always holds the count — `payments_survive_restart_history`). -/
 theorem payments_survive_restart (cfg : Cfg) (dist : Nat → Nat) (s : St) (torn : List (Nat × Nat))
     (hok : torn.all (tearOk s) = true) (hflushed : s.hist = some s.payments) :
     (step cfg dist s (.crash torn)).1.payments = s.payments := by
   simp [step, hok, restart, hflushed]
 
-/-- **Payments survive a restart, after any history.** Named hypothesis `FlushFifo`: the metrics-flush tasks
-complete in the order they were spawned (two flushes completing out of order can persist the older count — the
-model keeps that behaviour). Then in every reachable state with no flush pending the file holds the current
-count, so a stop (with any torn writes) and restart reports exactly the payments received so far. -/
-theorem payments_survive_restart_history (cfg : Cfg) (dist : Nat → Nat) (ops : List Op)
-    (hf : FlushFifo cfg dist (init cfg dist) ops) (hdone : flushVals (run cfg dist ops).tasks = [])
-    (torn : List (Nat × Nat)) (hok : torn.all (tearOk (run cfg dist ops)) = true) :
-    (step cfg dist (run cfg dist ops) (.crash torn)).1.payments = (run cfg dist ops).payments := by
-  have hinv : FlushInv (run cfg dist ops) := FlushInv.runFrom cfg dist ops (FlushInv.init cfg dist) hf
-  have hl := hinv.last
-  rw [hdone] at hl
-  exact payments_survive_restart cfg dist _ torn hok hl
+/-- The clause "payments received, which survive restarts": after ANY history — any completion order of the
+spawned tasks, anything pending — a stop (with any torn writes) and restart reports exactly the payments received. -/
+def PaymentsSurviveRestart : Prop :=
+  ∀ (cfg : Cfg) (dist : Nat → Nat) (ops : List Op) (torn : List (Nat × Nat)),
+    torn.all (tearOk (run cfg dist ops)) = true →
+    (step cfg dist (run cfg dist ops) (.crash torn)).1.payments = (run cfg dist ops).payments
 
-/-- non-vacuity: two payments, flushes completing in order, stop and restart: both payments are still counted;
-with the second flush overtaking the first the hypothesis fails (and the older count would be persisted) -/
+/-- **Payments survive a restart, after any history** — no hypothesis on the schedule: the metrics file is written in
+place, so in every reachable state it holds the current count and no flush is pending (`FlushInv.run`). (Before the
+repair of `flush_historic_quoting_metrics` this needed the flush tasks to complete in spawn order: two spawned
+flushes completing out of order left the older count on disk — `spawned_flush_witness`.) -/
+theorem payments_survive_restart_history : PaymentsSurviveRestart := by
+  intro cfg dist ops torn hok
+  exact payments_survive_restart cfg dist _ torn hok (FlushInv.run cfg dist ops).file
+
+theorem payments_step (cfg : Cfg) (dist : Nat → Nat) (s : St) (h : FlushInv s) (op : Op) :
+    (step cfg dist s op).1.payments = s.payments + countPayments [op] := by
+  cases hop : op with
+  | crash torn =>
+    simp only [step, countPayments, Nat.add_zero]
+    split
+    · rw [show (restart cfg dist (crashDisk s torn) s.hist s.nextId).payments = s.hist.getD 0 from rfl, h.file]; rfl
+    · rfl
+  | _ =>
+    have := payments_runFrom cfg dist [op] s (by subst hop; rfl)
+    simpa [runFrom, hop] using this
+
+theorem countPayments_cons (op : Op) (ops : List Op) : countPayments (op :: ops) = countPayments [op] + countPayments ops := by
+  cases op <;> simp [countPayments] <;> omega
+
+/-- **The payment counter is exact across restarts**: after any history, crashes and reopenings included, it counts
+the `payment_received` calls since the node's first start. -/
+theorem payments_exact_with_restarts (cfg : Cfg) (dist : Nat → Nat) (ops : List Op) :
+    (run cfg dist ops).payments = countPayments ops := by
+  have key : ∀ (ops : List Op) (s : St), FlushInv s → (runFrom cfg dist s ops).payments = s.payments + countPayments ops := by
+    intro ops
+    induction ops with
+    | nil => intro s _; simp [runFrom, countPayments]
+    | cons op ops ih =>
+      intro s hs
+      simp only [runFrom]
+      rw [ih _ (hs.step cfg dist op), payments_step cfg dist s hs op, countPayments_cons op ops]
+      omega
+  have := key ops (init cfg dist) (FlushInv.init cfg dist)
+  simpa [run, init, restart] using this
+
+/-- **The clause depends on the generated flag**: with the flush as a spawned task carrying the count captured at spawn
+time (the source before the repair), two payments whose flush tasks complete out of order leave the OLDER count in the
+metrics file with nothing pending, and the restarted node signs 1 payment although it received 2. -/
+theorem spawned_flush_witness :
+    let cfg := Cfg.shipped 4 2
+    let d : Nat → Nat := fun k => k
+    let s := paymentSpawned (paymentSpawned (init cfg d))
+    let s' := (runTask (runTask s 2).1 1).1
+    s'.payments = 2 ∧ s'.tasks = [] ∧ s'.hist = some 1 ∧ (restart cfg d s'.disk s'.hist s'.nextId).payments = 1 := by
+  decide
+
+/-- non-vacuity: two payments, other tasks completing in any order, stop and restart: both payments are still counted -/
 example :
     let cfg := Cfg.shipped 4 2
     let d : Nat → Nat := fun k => k
-    flushFifoB cfg d (init cfg d) [.run 0, .payment, .payment, .run 1, .run 2] = true ∧
-    flushVals (run cfg d [.run 0, .payment, .payment, .run 1, .run 2]).tasks = [] ∧
-    flushFifoB cfg d (init cfg d) [.run 0, .payment, .payment, .run 2, .run 1] = false ∧
-    (run cfg d [.run 0, .payment, .payment, .run 2, .run 1, .crash []]).payments = 1 := by
+    (run cfg d [.payment, .put 1 3 .chunk, .payment, .run 2, .crash []]).payments = 2 ∧
+    (run cfg d [.payment, .payment]).hist = some 2 ∧ (run cfg d [.payment, .payment]).tasks = [] := by
   decide
 
 /-- completion notifications wait for room on the command channel instead of being dropped (regenerated from
@@ -413,6 +459,65 @@ theorem capacity_bound_partial (cfg : Cfg) (dist : Nat → Nat) (inj : Injective
     (h : AckBeforePut cfg dist (init cfg dist) ops) :
     (run cfg dist ops).index.length + inflight (run cfg dist ops) ≤ max cfg.maxRecords 1 :=
   CapInv.runFrom inj ops (Views.init cfg inj) (CapInv.init cfg dist) h
+
+/-- The capacity clause for histories in which every accepted put is acknowledged before the next put, restarts
+allowed: listed records plus writes / notifications in flight stay within the capacity. FALSE of the code. -/
+def CapacityBoundAcked : Prop :=
+  ∀ (cfg : Cfg) (dist : Nat → Nat) (ops : List Op), Injective dist → AckBeforePutC cfg dist (init cfg dist) ops →
+    (run cfg dist ops).index.length + inflight (run cfg dist ops) ≤ max cfg.maxRecords 1
+
+/-- capacity 1, every put acknowledged: key 5 stored; key 2 (closer) stored, which evicts key 5 — its file deletion is
+a pending task; the write of key 2 completes and is acknowledged; the node stops before the delete task runs -/
+def restartOverrunOps : List Op :=
+  [.put 5 3 .chunk, .run 1, .deliver 1, .put 2 6 .chunk, .run 3, .deliver 3, .crash []]
+
+/-- the same without an eviction (what the harness can schedule on the real code: tasks spawned by one store call run
+in spawn order there): key 1 stored, removed (file deletion pending), key 2 stored, stop -/
+def restartOverrunOps' : List Op :=
+  [.put 1 3 .chunk, .run 1, .deliver 1, .remove 1, .put 2 6 .chunk, .run 3, .deliver 3, .crash []]
+
+/-- **K-v.** `max_records = 1`, every put acknowledged before the next, one pending file deletion lost in the stop:
+the restarted node lists two records with nothing in flight (the start-up scan re-indexes every decryptable file and
+does not enforce `max_records`). -/
+theorem restart_overrun_witness :
+    let s := run (Cfg.shipped 1 5) (fun k => k) restartOverrunOps
+    let s' := run (Cfg.shipped 1 5) (fun k => k) restartOverrunOps'
+    s.tasks = [] ∧ s.notes = [] ∧ keys s.index = [2, 5] ∧ s'.tasks = [] ∧ s'.notes = [] ∧ keys s'.index = [2, 1] ∧
+    lostDeletes (Cfg.shipped 1 5) (fun k => k) (init (Cfg.shipped 1 5) (fun k => k)) restartOverrunOps = 1 ∧
+    lostDeletes (Cfg.shipped 1 5) (fun k => k) (init (Cfg.shipped 1 5) (fun k => k)) restartOverrunOps' = 1 := by
+  decide
+
+theorem restartOverrun_acked :
+    AckBeforePutC (Cfg.shipped 1 5) (fun k => k) (init (Cfg.shipped 1 5) (fun k => k)) restartOverrunOps := by
+  simp only [AckBeforePutC, restartOverrunOps]
+  decide
+
+theorem capacityBoundAcked_false : ¬ CapacityBoundAcked := by
+  intro h
+  have w := restart_overrun_witness
+  have := h (Cfg.shipped 1 5) (fun k => k) restartOverrunOps (fun a b e => e) restartOverrun_acked
+  have hl : (run (Cfg.shipped 1 5) (fun k => k) restartOverrunOps).index.length = 2 := by
+    have := congrArg List.length w.2.2.1
+    simpa [keys] using this
+  rw [hl] at this
+  exact absurd this (by decide)
+
+/-- **Capacity bound with crashes (partial).** Missing hypothesis of the full statement: every put happens with no write
+or notification in flight. The node may stop and restart at any point, tearing any in-flight writes. Then, in every
+state of the history, listed records plus writes / notifications in flight never exceed `max max_records 1` **plus the
+number of file deletions that were still pending when the node stopped** (`lostDeletes`; each can bring one record
+back, because the start-up scan does not enforce `max_records`). The bound is attained (`restart_overrun_witness`). -/
+theorem capacity_bound_partial_crashes (cfg : Cfg) (dist : Nat → Nat) (inj : Injective dist) (ops : List Op)
+    (h : AckBeforePutC cfg dist (init cfg dist) ops) :
+    (run cfg dist ops).index.length + inflight (run cfg dist ops) ≤
+      max cfg.maxRecords 1 + lostDeletes cfg dist (init cfg dist) ops := by
+  have := CapInvL.runFromC inj ops (Reach.init cfg inj) (CapInv.init cfg dist) h
+  simpa [CapInvL, cap, run] using this
+
+/-- without a restart nothing is lost: `capacity_bound_partial` is the case `lostDeletes = 0` -/
+theorem lostDeletes_zero_without_restart (cfg : Cfg) (dist : Nat → Nat) (ops : List Op)
+    (h : AckBeforePut cfg dist (init cfg dist) ops) : lostDeletes cfg dist (init cfg dist) ops = 0 :=
+  lostDeletes_of_noCrash h
 
 /-- non-vacuity: an acknowledged history that reaches capacity and evicts -/
 example : AckBeforePut (Cfg.shipped 1 2) (fun k => k) (init (Cfg.shipped 1 2) (fun k => k))
@@ -500,10 +605,10 @@ example :
     (metrics cfg s 1).close = 1 ∧ (metrics cfg s 1).max = 9 ∧ (metrics cfg s 7).stored = false := by
   decide
 
-/-- payments are counted and, once flushed, survive a restart -/
+/-- payments are counted and survive a restart -/
 example :
     let cfg := Cfg.shipped 4 2
-    let s := run cfg (fun k => k) [.run 0, .payment, .payment, .run 1, .run 2, .crash []]
+    let s := run cfg (fun k => k) [.payment, .payment, .crash []]
     s.payments = 2 ∧ (metrics cfg s 1).paid = 2 := by
   decide
 
@@ -523,9 +628,16 @@ example : Gen.Store.pruneRefuseStrict = true ∧ Gen.Store.farthestUpdateStrict 
 #print axioms SafeNet.Props.C10.payments_exact
 #print axioms SafeNet.Props.C10.payments_survive_restart
 #print axioms SafeNet.Props.C10.payments_survive_restart_history
+#print axioms SafeNet.Props.C10.flush_is_synchronous
+#print axioms SafeNet.Props.C10.payments_exact_with_restarts
+#print axioms SafeNet.Props.C10.spawned_flush_witness
 #print axioms SafeNet.Props.C10.notifications_not_dropped
 #print axioms SafeNet.Props.C10.capacity_bound_partial
 #print axioms SafeNet.Props.C10.refused_put_leaves_no_trace
 #print axioms SafeNet.Props.C10.capacity_overrun_witness
 #print axioms SafeNet.Props.C10.capacityBound_false
+#print axioms SafeNet.Props.C10.restart_overrun_witness
+#print axioms SafeNet.Props.C10.capacityBoundAcked_false
+#print axioms SafeNet.Props.C10.capacity_bound_partial_crashes
+#print axioms SafeNet.Props.C10.lostDeletes_zero_without_restart
 end SafeNet.Props.C10
